@@ -14,7 +14,7 @@ C18 driver.  Op lines (grammar: top of harness/src/bin/c18.rs)
 The state is the model history of the case.
 -/
 namespace LanceModel.C18.Driver
-open LanceModel.Util LanceModel.Table LanceModel.C17 LanceModel.C18
+open LanceModel.Util LanceModel.Table LanceModel.C17Base LanceModel.C18
 
 abbrev St := Hist
 
